@@ -542,6 +542,13 @@ pub fn run(p: &Params) -> Report {
         rep.inc("evaluations");
         rep.inc("bin_sessions");
         let s = srv.as_mut().unwrap();
+        for (class, blk) in s.stderr_sanitizer_reports() {
+            if class.ends_with("without-repo-frame") {
+                rep.note(format!("sanitizer report in the server without a frame in /repo/src: {}", blk.lines().next().unwrap_or("")));
+            } else {
+                rep.violation(&class, blk.chars().take(1500).collect(), json!({"kind":"c16-bin-sanitizer"}));
+            }
+        }
         if let Some((class, detail, replay)) = bin_session(&mut rep, &mut rng, s, &logs, slow_server) {
             rep.violation(&class, detail, replay);
             if let Some(s) = srv.take() {
